@@ -161,7 +161,27 @@ def t_masked_callee(k):
     return {"prec": "f32", "cfg": False, "callees": [masked], "main": main}
 
 
-TEMPLATES = [t_window_of_alloc, t_else_then_more, t_dependent_alloc, t_rmw_prefix, t_triangular_alloc, t_reduce_beyond, t_config_chain, t_maybe_zero_bound, t_masked_callee]
+def t_window_on_alloc(k):
+    """allocation -> window statement -> the allocation is only used through the window afterwards
+    (last-use / free placement), in straight-line code, in a branch or in a loop"""
+    where = k % 3
+    use = [["for", "i", "0", "4", [["assign", "y", ["i"], "w[i] + 1.0"]], "seq"]]
+    core = [
+        ["alloc", "xb", "f32", ["8"], "DRAM"],
+        ["for", "i", "0", "8", [["assign", "xb", ["i"], "y[i % 4]"]], "seq"],
+        ["window", "w", "xb", [["iv", str(k % 4), str(k % 4 + 4)]]],
+    ]
+    if where == 0:
+        body = core + use
+    elif where == 1:
+        body = core + [["if", "n > 1", use, [["assign", "y", ["0"], "w[0]"]]], ["assign", "y", ["1"], "y[0]"]]
+    else:
+        body = [["for", "r", "0", "n", core + [["window", "w2", "w", [["iv", "1", "3"]]]] + [["assign", "y", ["0"], "w2[1]"]] + use, "seq"]]
+    main = {"name": "foo", "args": [_arg("n", "size"), _arg("y", "tensor", dims=["4"])], "preds": [], "body": body}
+    return {"prec": "f32", "cfg": False, "callees": [], "main": main}
+
+
+TEMPLATES = [t_window_on_alloc, t_window_of_alloc, t_else_then_more, t_dependent_alloc, t_rmw_prefix, t_triangular_alloc, t_reduce_beyond, t_config_chain, t_maybe_zero_bound, t_masked_callee]
 
 
 def templates():
